@@ -112,6 +112,13 @@ class RefPeg:
             if p < len(t) and any(a <= t[p] <= b for a, b in ASCII[name]):
                 return True, St(p + 1, s.stk, s.mode), []
             return False, s, []
+        if type(r).__name__ == "UnicodePropertyRule":
+            # Unicode property: one code point, decided by the engine's own tables (the property text is C12's business)
+            import regex
+
+            if p < len(t) and regex.fullmatch(r.expression.pattern if hasattr(r.expression, "pattern") and isinstance(r.expression.pattern, str) else r.expression.regex.pattern, t[p]):
+                return True, St(p + 1, s.stk, s.mode), []
+            return False, s, []
         raise Unsupported(f"builtin {name}")
 
     # ------------------------------------------------------------ expressions
